@@ -18,7 +18,8 @@ JOBS = int(os.environ.get("VERIF_JOBS", "14"))
 SEED = int(os.environ.get("VERIF_SEED", "0") or 0)
 GUARD = "NEATVI_VERIF"
 CHECK_FLAGS = ["--bounds-check", "--pointer-check", "--signed-overflow-check",
-               "--pointer-overflow-check", "--conversion-check", "--div-by-zero-check"]
+               "--pointer-overflow-check", "--conversion-check", "--div-by-zero-check",
+               "--no-malloc-may-fail"]
 THOROUGH_FLAGS = ["--undefined-shift-check"]
 DEFAULT_TIMEOUT = 600
 DEFAULT_MEM_KB = 8_000_000
@@ -146,7 +147,7 @@ def build_unit(u, wd, defs):
         cmd += ["--loop-contracts-file", lf]
         if u.get("uf_in_invariants"):
             cmd += ["--disable-loop-contracts-side-effect-check"]
-    cmd += ["--dfcc", h]
+    cmd += ["--no-malloc-may-fail", "--dfcc", h]
     for e in u.get("enforce", []):
         cmd += ["--enforce-contract", e]
     for e in u.get("enforce_rec", []):
